@@ -51,7 +51,9 @@ add(
     "tolerance, and a match is then demanded (error-free: all types; within tolerance: indels off or types that cannot "
     "skip the adapter start; a dedicated generator plants 1..k lone edits into anchored / 3' adapters with indels). "
     "Position bounds for error-free copies (regular 3'/5', rightmost, anchored). The failing "
-    "layer (prefilter vs aligner) is attributed in the message.",
+    "layer (prefilter vs aligner) is attributed in the message. A command-line sub-check gives one to three adapter "
+    "sources (direct and file: specifications with own / file-wide / global parameters, in any order) and demands that "
+    "a read with an admissible occurrence of any adapter never arrives in --untrimmed-output.",
     "Held on everything explored; the with-indels clause excludes start-skipping types as the property states.",
     "DESIGN.md section 4, C02",
 )
